@@ -342,3 +342,21 @@ def merlin_source(rng, nlines=None):
         com = (' ; ' + a_rem(rng)) if rng.random() < 0.2 else ''
         lines.append(f"{lab} {op} {operand}{com}".rstrip())
     return '\n'.join(lines) + '\n'
+
+
+def merlin_boundary_sources():
+    """labels, mnemonics/macros and operands of every length around the default column widths (9, 6, 11), with and without comments"""
+    out = []
+    for n in range(1, 15):
+        lab = ('LABELABCDEFGHIJ')[:n]
+        out.append(f" ORG $300\n{lab} LDA #$00\n RTS\n")
+        out.append(f" ORG $300\n{lab} LDA #$00 ; note\n{lab}X\n")
+    for n in range(1, 15):
+        opnd = ('TARGETABCDEFGHIJ')[:n]
+        out.append(f"{opnd} EQU $300\nSTART JMP {opnd} ; note\n JMP {opnd}\n")
+    for n in range(1, 13):
+        mac = ('MACROABCDEFGH')[:n]
+        out.append(f"{mac} MAC\n NOP\n <<<\n {mac}\nL1 {mac} ; c\n")
+    for n in range(1, 40, 3):
+        out.append(f" ASC \"{'A' * n}\" ; c\n HEX {'AB' * n}\n")
+    return out
